@@ -67,7 +67,7 @@ MIN_EVENTS = {
 # cases per stream: (quick, thorough)
 COUNTS = {
     'dense': (60, 600), 'dense_general': (80, 900), 'einsum': (50, 500), 'conv': (260, 4500), 'conv_local': (60, 900),
-    'conv_transpose': (150, 2400), 'embed': (50, 500), 'pool': (120, 1500), 'norm': (220, 3600), 'batchnorm': (70, 1200),
+    'conv_transpose': (150, 2400), 'embed': (50, 500), 'embed_int': (30, 300), 'pool': (120, 1500), 'norm': (220, 3600), 'batchnorm': (70, 1200),
     'dropout': (40, 300), 'lora': (12, 100),
 }
 
@@ -780,6 +780,42 @@ def run_pool(ctx, c, npr):
   ctx.check(nnx.avg_pool is nn.avg_pool and nnx.max_pool is nn.max_pool and nnx.min_pool is pooling.min_pool, 'linen_vs_nnx:pool_is_shared', None)
 
 
+def gen_embed_int(rng):
+  return dict(num=rng.choice([2, 3, 5]), features=rng.randint(1, 4), pdt=rng.choice(['int32', 'int32', 'int8', 'uint8', 'int16', 'bool']),
+              idx_shape=tuple(rng.randint(1, 3) for _ in range(rng.randint(0, 2))), big=rng.random() < 0.6)
+
+
+def run_embed_int(ctx, c, npr):
+  """Embed is a table lookup for every param_dtype: an integer / bool table with dtype=None comes back row by row, exactly (values
+  beyond 2**24 do not survive a detour through float32) and in the table's own dtype."""
+  import flax.linen as nn
+  from flax import nnx
+  import jax.numpy as jnp
+  n, f, pdt = c['num'], c['features'], c['pdt']
+  info = None if pdt == 'bool' else np.iinfo(pdt)
+  if pdt == 'bool':
+    E = npr.integers(0, 2, size=(n, f)).astype(bool)
+  else:
+    E = npr.integers(max(info.min, -100), min(info.max, 100), size=(n, f)).astype(pdt)
+    if c['big'] and pdt == 'int32':
+      specials = np.asarray([16777217, -16777217, 2 ** 31 - 1, -2 ** 31 + 1, 33554435], np.int32)
+      E.reshape(-1)[: min(E.size, len(specials))] = specials[: min(E.size, len(specials))]
+  idx = npr.integers(0, n, size=c['idx_shape']).astype(np.int32)
+  ci = const_init()
+  mod = nn.Embed(n, f, dtype=None, param_dtype=jnp.dtype(pdt), embedding_init=ci)
+  m = nnx.Embed(n, f, dtype=None, param_dtype=jnp.dtype(pdt), embedding_init=ci, rngs=rngs0())
+  m.embedding.value = jnp.asarray(E)
+  ctx.op('linen.Embed[int table]')
+  ctx.op('nnx.Embed[int table]')
+  want = E[idx]
+  for tag, out in (('', mod.apply({'params': {'embedding': jnp.asarray(E)}}, jnp.asarray(idx))), (':nnx', m(jnp.asarray(idx)))):
+    g = np.asarray(out)
+    ctx.check(g.shape == want.shape and bool(np.array_equal(g.astype(np.int64), want.astype(np.int64))), 'embed.lookup:integer_table' + tag,
+              lambda: dict(param_dtype=pdt, got=g.ravel()[:6].tolist(), want=want.ravel()[:6].tolist(), got_dtype=str(g.dtype)))
+    ctx.check(str(g.dtype) == pdt, 'embed.dtype:integer_table' + tag, lambda: dict(got=str(g.dtype), want=pdt))
+
+
+STREAMS['embed_int'] = (gen_embed_int, run_embed_int, lambda c: True)
 STREAMS['embed'] = (gen_embed, run_embed, lambda c: c['num'] > 1)
 STREAMS['pool'] = (gen_pool, run_pool, lambda c: max(c['window']) > 1)
 
